@@ -26,4 +26,11 @@ Section Lib.
   (* a*u + b*v entrywise *)
   Definition lincomb (a : T O) (u : list (T O)) (b : T O) (v : list (T O)) : list (T O) :=
     map (fun uv => add O (mul O a (fst uv)) (mul O b (snd uv))) (combine u v).
+  (* the pixel whose value reaches the target pixel t through kernel cell ab (flipped, centred kernel) *)
+  Definition shift_src (K : list (list (T O))) (t : px) (ab : Z * Z) : px :=
+    (fst t + rows K / 2 - fst ab, snd t + cols K / 2 - snd ab).
+  (* a one-hot kernel (unit shift / basis kernel): entry c at cell ab, zero at every other cell (statement helper, a Prop) *)
+  Definition one_hot (K : list (list (T O))) (ab : Z * Z) (c : T O) : Prop :=
+    (0 <= fst ab < rows K /\ 0 <= snd ab < cols K) /\ getZ zero K ab = c /\
+    forall ij, (0 <= fst ij < rows K /\ 0 <= snd ij < cols K) -> ij <> ab -> getZ zero K ij = zero.
 End Lib.
